@@ -16,6 +16,7 @@ tvars == <<x, tid, l, status, jv>>
 
 ASSUME \A i \in 1..Len(Logs) : TLCSet(i, <<0, "ok">>)
 ASSUME Crc5TableOk
+ASSUME Crc32StreamOk
 
 TInit == /\ x = TxInit
          /\ tid \in 1..Len(Logs)
